@@ -3,7 +3,8 @@
    The model is Model/Complex.v (every operator impl of src/complex/mod.rs as its own function).
    Not proved here: the "few ulps" accuracy of the f64 instantiation for the code's own arithmetic
    (tie + search; see cmul_rounding_bound below for the rounding-model statement, if present). *)
-From Coq Require Import List Arith Bool Ring_theory Field_theory QArith Qcanon Reals.
+From Coq Require Import List Arith Bool Ring_theory Field_theory QArith Qcanon Reals Lra Lia.
+From Flocq Require Import Core.
 From OV Require Import Base.Panic Base.Arith Model.Complex Inst.QcInst Inst.FloatInst Proofs.Complex Proofs.ComplexQc Proofs.ComplexFloat Proofs.ComplexField Proofs.ComplexRound.
 
 (* ---- Complex F is the commutative ring F[i] ---- *)
@@ -280,3 +281,127 @@ Example cmul_rounding_bound_nonvacuous_at :
   in_range (a * c) /\ in_range (b * d) /\ in_range (a * d) /\ in_range (b * c) /\
   in_range (rnd64 (a * c) - rnd64 (b * d)) /\ in_range (rnd64 (a * d) + rnd64 (b * c)).
 Proof. exact cmul_rounding_bound_nonvacuous. Qed.
+
+(* + and - round each component once (relative error u per component); |z|^2 has relative error 2u + u^2;
+   z * r (= r * z) rounds each component once *)
+Theorem cadd_csub_rounding_bound : forall z w : cplx AF,
+  let a := FR (re z) in let b := FR (im z) in let c := FR (re w) in let d := FR (im w) in
+  ffinite (re z) -> ffinite (im z) -> ffinite (re w) -> ffinite (im w) ->
+  (in_range (a + c) -> in_range (b + d) ->
+   ffinite (re (cadd z w)) /\ ffinite (im (cadd z w)) /\
+   (Rabs (FR (re (cadd z w)) - (a + c)) <= u64 * Rabs (a + c))%R /\
+   (Rabs (FR (im (cadd z w)) - (b + d)) <= u64 * Rabs (b + d))%R) /\
+  (in_range (a - c) -> in_range (b - d) ->
+   ffinite (re (csub z w)) /\ ffinite (im (csub z w)) /\
+   (Rabs (FR (re (csub z w)) - (a - c)) <= u64 * Rabs (a - c))%R /\
+   (Rabs (FR (im (csub z w)) - (b - d)) <= u64 * Rabs (b - d))%R).
+Proof. intros z w. exact (cadd_csub_rounding_bound_lemma z w). Qed.
+Check cadd_csub_rounding_bound : forall z w : cplx AF,
+  let a := FR (re z) in let b := FR (im z) in let c := FR (re w) in let d := FR (im w) in
+  ffinite (re z) -> ffinite (im z) -> ffinite (re w) -> ffinite (im w) ->
+  (in_range (a + c) -> in_range (b + d) ->
+   ffinite (re (cadd z w)) /\ ffinite (im (cadd z w)) /\
+   (Rabs (FR (re (cadd z w)) - (a + c)) <= u64 * Rabs (a + c))%R /\
+   (Rabs (FR (im (cadd z w)) - (b + d)) <= u64 * Rabs (b + d))%R) /\
+  (in_range (a - c) -> in_range (b - d) ->
+   ffinite (re (csub z w)) /\ ffinite (im (csub z w)) /\
+   (Rabs (FR (re (csub z w)) - (a - c)) <= u64 * Rabs (a - c))%R /\
+   (Rabs (FR (im (csub z w)) - (b - d)) <= u64 * Rabs (b - d))%R).
+Print Assumptions cadd_csub_rounding_bound.
+Print Assumptions cplx_ext. (* closed; ends the axiom list above for the audit's output parser *)
+Example cadd_csub_rounding_bound_nonvacuous : in_range (FR (FloatInst.fz false 3 (-1)) + FR (FloatInst.fz false 3 0)).
+Proof.
+  assert (E : (FR (FloatInst.fz false 3 (-1)) + FR (FloatInst.fz false 3 0) = 4.5)%R).
+  { assert (E1 : FR (FloatInst.fz false 3 (-1)) = 1.5%R) by fr_eval.
+    assert (E2 : FR (FloatInst.fz false 3 0) = 3%R) by fr_eval. rewrite E1, E2. lra. }
+  rewrite E. apply in_range_of_bounds. rewrite Rabs_pos_eq by lra.
+  assert (B0 : (bpow radix2 (-1022) <= bpow radix2 0)%R) by (apply bpow_le; lia).
+  assert (B1 : (bpow radix2 3 <= bpow radix2 1023)%R) by (apply bpow_le; lia).
+  change (bpow radix2 0) with 1%R in B0. assert (P3 : bpow radix2 3 = 8%R) by (cbn; lra). lra.
+Qed.
+
+Theorem abs_sqr_cmul_r_rounding_bound : forall (z : cplx AF) (r : AF),
+  let a := FR (re z) in let b := FR (im z) in let s := FR r in
+  ffinite (re z) -> ffinite (im z) ->
+  (in_range (a * a) -> in_range (b * b) -> in_range (rnd64 (a * a) + rnd64 (b * b)) ->
+   ffinite (abs_sqr z) /\
+   (Rabs (FR (abs_sqr z) - (a * a + b * b)) <= (2 * u64 + u64 * u64) * (a * a + b * b))%R) /\
+  (ffinite r -> in_range (a * s) -> in_range (b * s) ->
+   ffinite (re (cmul_r z r)) /\ ffinite (im (cmul_r z r)) /\ rmul_c r z = cmul_r z r /\
+   (Rabs (FR (re (cmul_r z r)) - a * s) <= u64 * Rabs (a * s))%R /\
+   (Rabs (FR (im (cmul_r z r)) - b * s) <= u64 * Rabs (b * s))%R).
+Proof. intros z r. exact (abs_sqr_cmul_r_rounding_bound_lemma z r). Qed.
+Check abs_sqr_cmul_r_rounding_bound : forall (z : cplx AF) (r : AF),
+  let a := FR (re z) in let b := FR (im z) in let s := FR r in
+  ffinite (re z) -> ffinite (im z) ->
+  (in_range (a * a) -> in_range (b * b) -> in_range (rnd64 (a * a) + rnd64 (b * b)) ->
+   ffinite (abs_sqr z) /\
+   (Rabs (FR (abs_sqr z) - (a * a + b * b)) <= (2 * u64 + u64 * u64) * (a * a + b * b))%R) /\
+  (ffinite r -> in_range (a * s) -> in_range (b * s) ->
+   ffinite (re (cmul_r z r)) /\ ffinite (im (cmul_r z r)) /\ rmul_c r z = cmul_r z r /\
+   (Rabs (FR (re (cmul_r z r)) - a * s) <= u64 * Rabs (a * s))%R /\
+   (Rabs (FR (im (cmul_r z r)) - b * s) <= u64 * Rabs (b * s))%R).
+Print Assumptions abs_sqr_cmul_r_rounding_bound.
+Print Assumptions cplx_ext. (* closed; ends the axiom list above for the audit's output parser *)
+Example abs_sqr_cmul_r_rounding_bound_nonvacuous :
+  let a := FR (FloatInst.fz false 3 (-1)) in let b := FR (FloatInst.fz true 1 (-1)) in
+  in_range (a * a) /\ in_range (b * b) /\ in_range (a * b).
+Proof.
+  cbn zeta. assert (E1 : FR (FloatInst.fz false 3 (-1)) = 1.5%R) by fr_eval.
+  assert (E2 : FR (FloatInst.fz true 1 (-1)) = (-0.5)%R) by fr_eval. rewrite E1, E2.
+  assert (B0 : (bpow radix2 (-1022) <= bpow radix2 (-2))%R) by (apply bpow_le; lia).
+  assert (B1 : (bpow radix2 2 <= bpow radix2 1023)%R) by (apply bpow_le; lia).
+  assert (Pm2 : bpow radix2 (-2) = (/ 4)%R) by (cbn; lra). assert (P2 : bpow radix2 2 = 4%R) by (cbn; lra).
+  repeat split; apply in_range_of_bounds;
+    (rewrite Rabs_pos_eq by lra) || (rewrite Rabs_left by lra); lra.
+Qed.
+
+(* the quotient as the code computes it, den = fl(fl(cc)+fl(dd)), (fl(fl(fl(ac)+fl(bd))/den), fl(fl(fl(bc)-fl(ad))/den)):
+   normwise  |fl(z/w) - z/w|^2 <= 2 kappa^2 |z|^2/|w|^2 ,  kappa = (2g + u(1+g))/(1-g), g = 2u + u^2  (about 7.1 u |z|/|w|) *)
+Theorem cdiv_rounding_bound : forall z w : cplx AF,
+  let a := FR (re z) in let b := FR (im z) in let c := FR (re w) in let d := FR (im w) in
+  let D1 := rnd64 (rnd64 (c * c) + rnd64 (d * d)) in
+  let R1 := rnd64 (rnd64 (a * c) + rnd64 (b * d)) in
+  let I1 := rnd64 (rnd64 (b * c) - rnd64 (a * d)) in
+  ffinite (re z) -> ffinite (im z) -> ffinite (re w) -> ffinite (im w) -> (0 < c * c + d * d)%R ->
+  in_range (c * c) -> in_range (d * d) -> in_range (rnd64 (c * c) + rnd64 (d * d)) ->
+  in_range (a * c) -> in_range (b * d) -> in_range (rnd64 (a * c) + rnd64 (b * d)) ->
+  in_range (b * c) -> in_range (a * d) -> in_range (rnd64 (b * c) - rnd64 (a * d)) ->
+  in_range (R1 / D1) -> in_range (I1 / D1) ->
+  exists q, cdiv z w = Ok q /\ ffinite (re q) /\ ffinite (im q) /\
+  let er := (FR (re q) - (a * c + b * d) / (c * c + d * d))%R in
+  let ei := (FR (im q) - (b * c - a * d) / (c * c + d * d))%R in
+  (er * er + ei * ei <=
+    2 * (kappa u64 (2 * u64 + u64 * u64) * kappa u64 (2 * u64 + u64 * u64)) * ((a * a + b * b) / (c * c + d * d)))%R.
+Proof. intros z w. exact (cdiv_rounding_bound_lemma z w). Qed.
+Check cdiv_rounding_bound : forall z w : cplx AF,
+  let a := FR (re z) in let b := FR (im z) in let c := FR (re w) in let d := FR (im w) in
+  let D1 := rnd64 (rnd64 (c * c) + rnd64 (d * d)) in
+  let R1 := rnd64 (rnd64 (a * c) + rnd64 (b * d)) in
+  let I1 := rnd64 (rnd64 (b * c) - rnd64 (a * d)) in
+  ffinite (re z) -> ffinite (im z) -> ffinite (re w) -> ffinite (im w) -> (0 < c * c + d * d)%R ->
+  in_range (c * c) -> in_range (d * d) -> in_range (rnd64 (c * c) + rnd64 (d * d)) ->
+  in_range (a * c) -> in_range (b * d) -> in_range (rnd64 (a * c) + rnd64 (b * d)) ->
+  in_range (b * c) -> in_range (a * d) -> in_range (rnd64 (b * c) - rnd64 (a * d)) ->
+  in_range (R1 / D1) -> in_range (I1 / D1) ->
+  exists q, cdiv z w = Ok q /\ ffinite (re q) /\ ffinite (im q) /\
+  let er := (FR (re q) - (a * c + b * d) / (c * c + d * d))%R in
+  let ei := (FR (im q) - (b * c - a * d) / (c * c + d * d))%R in
+  (er * er + ei * ei <=
+    2 * (kappa u64 (2 * u64 + u64 * u64) * kappa u64 (2 * u64 + u64 * u64)) * ((a * a + b * b) / (c * c + d * d)))%R.
+Print Assumptions cdiv_rounding_bound.
+Print Assumptions cplx_ext. (* closed; ends the axiom list above for the audit's output parser *)
+Example cdiv_rounding_bound_nonvacuous_at :
+  let z := @mkC AF (FloatInst.fz false 3 (-1)) (FloatInst.fz false 2 0) in
+  let w := @mkC AF (FloatInst.fz false 3 0) (FloatInst.fz true 1 (-1)) in
+  let a := FR (re z) in let b := FR (im z) in let c := FR (re w) in let d := FR (im w) in
+  let D1 := rnd64 (rnd64 (c * c) + rnd64 (d * d)) in
+  let R1 := rnd64 (rnd64 (a * c) + rnd64 (b * d)) in
+  let I1 := rnd64 (rnd64 (b * c) - rnd64 (a * d)) in
+  ffinite (re z) /\ ffinite (im z) /\ ffinite (re w) /\ ffinite (im w) /\ (0 < c * c + d * d)%R /\
+  in_range (c * c) /\ in_range (d * d) /\ in_range (rnd64 (c * c) + rnd64 (d * d)) /\
+  in_range (a * c) /\ in_range (b * d) /\ in_range (rnd64 (a * c) + rnd64 (b * d)) /\
+  in_range (b * c) /\ in_range (a * d) /\ in_range (rnd64 (b * c) - rnd64 (a * d)) /\
+  in_range (R1 / D1) /\ in_range (I1 / D1).
+Proof. exact cdiv_rounding_bound_nonvacuous. Qed.
+
